@@ -3,6 +3,7 @@
 package query
 
 import (
+	"fmt"
 	"slices"
 	"sort"
 	"strings"
@@ -374,6 +375,9 @@ func (m *vfModel) eval1(n *vfNode) *vfRel {
 		out := &vfRel{cols: slices.Clone(s.cols)}
 		for i := range n.from {
 			j := slices.Index(out.cols, n.from[i])
+			if j < 0 {
+				panic(fmt.Sprintf("vfModel: rename of %s which is not a column of its source (%v): %s", n.from[i], s.cols, n.text()))
+			}
 			out.cols[j] = n.to[i]
 		}
 		for _, row := range s.rows {
